@@ -43,6 +43,21 @@ def metadata(op):
     return m
 
 
+def expand_spec(spec):
+    """the spec dict handed to the real code.  `{"deep": n}` is a marker: only here does it become a value
+    nested n levels (built iteratively); the harness never walks, copies, compares or prints that value."""
+    out = {"id": spec["id"], "fail": spec["fail"]}
+    if "subs" in spec:
+        out["subs"] = spec["subs"]
+    n = spec.get("deep") or 0
+    if n:
+        inner = {"leaf": 1}
+        for i in range(n):
+            inner = {"d": inner} if i % 3 else [inner]
+        out["nest"] = inner
+    return out
+
+
 def realistic_meta(r, kind, name, generation):
     m = {"uid": f"uid-{kind}-{name}", "creationTimestamp": "2025-01-01T00:00:00Z"}
     if generation is not None:
@@ -85,7 +100,7 @@ class World:
         async def prepare(name, spec):
             serial = self.calls
             self.calls += 1
-            if spec is offered_spec or spec != offered_spec:
+            if "nest" not in spec and (spec is offered_spec or spec != offered_spec):
                 self.bad_args = "preparer did not get an equal deep copy of the offered spec"
             d = {"c": "failed" if spec.get("fail") else "ok", "kind": kind_idx, "name": name, "id": spec.get("id")}
             if spec.get("fail"):
@@ -113,8 +128,8 @@ class World:
         d, serial = self.obj(e.resource)
         sys = e.system_data
         spec = e.spec
-        return {"spec": {"id": spec.get("id"), "fail": spec.get("fail")} if isinstance(spec, dict) and set(spec) == {"id", "fail"}
-                else {"odd": repr(spec)},
+        return {"spec": {"id": spec.get("id"), "fail": spec.get("fail"), "deep": "nest" in spec}
+                if isinstance(spec, dict) and set(spec) - {"nest"} == {"id", "fail"} else {"odd": sorted(map(str, spec))[:5]},
                 "resource": d, "serial": serial, "version": e.resource_version,
                 "sys": sys["n"] if isinstance(sys, dict) and set(sys) == {"n"} else (None if sys is None else -1)}
 
@@ -133,7 +148,7 @@ class World:
         k = op["op"]
         if k == "offer":
             meta = metadata(op)
-            spec = dict(op["spec"])
+            spec = expand_spec(op["spec"])
             before = self.calls
             try:
                 got = await c.prepare_and_cache(
@@ -148,6 +163,13 @@ class World:
                 made = self.made[before]
                 d, serial = self.obj(made)
                 return {"k": "raisedCycle", "resource": d, "serial": serial}, made
+            if op["spec"].get("deep") and self.calls == before and id(got) not in self.desc \
+                    and isinstance(got, self.result.PermFail):
+                # the spec was too deep to copy: the cache itself produced the failed preparation (a fresh
+                # PermFail) without reaching the preparer — it counts as the preparation of this version
+                self.desc[id(got)] = (self.calls, {"c": "failed", "kind": op["kind"], "name": name, "id": op["spec"]["id"]})
+                self.made.append(got)
+                self.calls += 1
             d, serial = self.obj(got)
             return {"k": "returned", "resource": d, "serial": serial, "prepared": self.calls > before}, got
         if k == "delete":
@@ -200,7 +222,11 @@ async def run_history(mods, ops, trace):
                 raise
             except Exception as e:
                 trace.append({"out": {"k": "exception", "cls": type(e).__name__}, "calls": w.calls, "view": w.view(keys)})
-                return i, f"{op['op']} raised {type(e).__name__}: {e}"
+                what = f"{op['op']} raised {type(e).__name__}: {e}"
+                if op["op"] == "offer" and op["spec"].get("deep"):
+                    what += (f" — the offer of version {op['version']!r} carries a spec nested {op['spec']['deep']} levels; "
+                             "its (failed) preparation must be cached under that version, not escape as an exception")
+                return i, what
             view = w.view(keys)
             trace.append({"out": out, "calls": w.calls, "view": view})
             key = (op["kind"], op["name"])
@@ -320,6 +346,14 @@ def gen_history(r):
     subby = r.random() < 0.5   # half of the histories declare subscriptions (cycles included)
     allkeys = [(i, n) for i in range(2) for n in NAMES]
 
+    deepish = r.random() < 0.35   # some histories offer specs nested too deeply to deep-copy
+
+    def spec(nid):
+        d = {"id": nid, "fail": r.random() < 0.3}
+        if deepish and r.random() < 0.2:
+            d["deep"] = r.choice([1500, 2000, 4000])
+        return d
+
     gens = {}                  # generation per key, moving independently of resourceVersion
     rich = r.random() < 0.7    # most histories carry full Kubernetes metadata
 
@@ -361,7 +395,7 @@ def gen_history(r):
                 v = r.choice([None, ""])                   # malformed
             nm = "" if r.random() < 0.02 else name
             ops.append({"op": "offer", "kind": kind, "name": nm, "version": v,
-                        "spec": {"id": nid, "fail": r.random() < 0.3},
+                        "spec": spec(nid),
                         "sys": r.choice([None, None, nid]), "subs": subs(), "meta": meta(kind, nm)})
             if v and nm:
                 current[(kind, nm)] = v
@@ -389,7 +423,7 @@ def gen_history(r):
                 if r.random() < 0.5:                       # delete then re-offer of an old version
                     nid += 1
                     ops.append({"op": "offer", "kind": kind, "name": name, "version": r.choice([old, "1"]),
-                                "spec": {"id": nid, "fail": r.random() < 0.3}, "sys": None, "subs": subs(),
+                                "spec": spec(nid), "sys": None, "subs": subs(),
                                 "meta": meta(kind, name)})
                     current[(kind, name)] = ops[-1]["version"]
         elif x < 0.86:
@@ -631,6 +665,10 @@ async def explore(ck, mods, drv, cases, what):
                     ck.count("offer:new-version-same-generation-prepared")
                     kinds.add("same-generation")
                 lastgen[(op["kind"], op["name"])] = (op["meta"]["generation"], op["version"])
+            if op["op"] == "offer" and op["spec"].get("deep") and o["k"] in ("returned", "raisedCycle"):
+                t2 = "offer:too-deep-spec-" + ("prepared-as-failure" if o.get("prepared", True) else "hit")
+                ck.count(t2)
+                kinds.add(t2)
             if o["k"] == "returned":
                 tag = ("prepared-" if o["prepared"] else "cached-") + o["resource"]["c"]
                 ck.count(f"offer:{tag}")
